@@ -73,7 +73,10 @@ fn gen_frame(r: &mut Rng, tier_thorough: bool) -> FrameArgs {
         1 => 1,
         2 => 1472,
         3 => 1471,
-        4 if tier_thorough => *r.pick(&[65507u64, 65508, 65515, 65516, 65527, 65528, 65535, 70000]),
+        // beyond the length fields: the debug profile panics on the u16 additions, the release
+        // profile wraps; the model has the debug semantics, so only offered to a debug harness
+        4 if tier_thorough && cfg!(debug_assertions) => *r.pick(&[65507u64, 65508, 65515, 65516, 65527, 65528, 65535, 70000]),
+        4 if tier_thorough => 65507,
         _ => r.below(1473),
     } as usize;
     let mut payload = r.bytes(plen);
